@@ -161,6 +161,9 @@ type fragPattern struct {
 	EOF  bool
 	// Rich: the source also offers ReadByte, ReadAt and WriteTo
 	Rich bool
+	// StartAt: the source's read position when it is handed to the reader (0 = start,
+	// -1 = end of file, n = offset n): the reader positions the source itself
+	StartAt int
 }
 
 func fragPatterns(c *Ctx, fileID string) []fragPattern {
@@ -202,6 +205,8 @@ func fragPatterns(c *Ctx, fileID string) []fragPattern {
 			return want
 		}})
 	}
+	ps = append(ps, fragPattern{Name: "handed-over-at-end", StartAt: -1}, fragPattern{Name: "handed-over-at-offset-5", StartAt: 5, Frag: func(want int, off int64) int { return 9 }},
+		fragPattern{Name: "rich-source-handed-over-at-end", Rich: true, StartAt: -1})
 	ps = append(ps, fragPattern{Name: "rich-source-whole", Rich: true},
 		fragPattern{Name: "rich-source-chunk5", Rich: true, Frag: func(want int, off int64) int { return 5 }},
 		fragPattern{Name: "rich-source-eof-with-data", Rich: true, EOF: true, Frag: func(want int, off int64) int { return 3 }})
@@ -254,7 +259,7 @@ func runC08(c *Ctx) {
 			if f.Kind == "foreign" {
 				c.Out.Count("foreign_file_cases", 1)
 			}
-			if (f.Kind == "aligned" || f.Kind == "xl" || f.Kind == "foreign") && p.Name != "chunk1" && p.Name != "chunk7" && p.Name != "chunk4096" && p.Name != "random0" && p.Name != "every3th-call-short" && p.Name != "rich-source-chunk5" {
+			if (f.Kind == "aligned" || f.Kind == "xl" || f.Kind == "foreign") && p.Name != "chunk1" && p.Name != "chunk7" && p.Name != "chunk4096" && p.Name != "random0" && p.Name != "every3th-call-short" && p.Name != "rich-source-chunk5" && p.Name != "handed-over-at-end" {
 				continue
 			}
 			id := f.ID + "/" + p.Name
@@ -265,6 +270,10 @@ func runC08(c *Ctx) {
 			src := NewSource(file)
 			src.Frag = p.Frag
 			src.EOFWithData = p.EOF
+			if p.StartAt != 0 {
+				src.SetPos(p.StartAt)
+				c.Out.Count("cases_with_source_not_at_offset_0", 1)
+			}
 			nsite := 0
 			src.SiteOf = func() string {
 				nsite++
